@@ -45,8 +45,10 @@ class ZONEINFO(TZProvider):
             return zoneinfo.ZoneInfo(name)
         except zoneinfo.ZoneInfoNotFoundError:
             pass
-        except ValueError:
+        except (ValueError, OSError):
             # ValueError: ZoneInfo keys may not be absolute paths, got: /Europe/CUSTOM
+            # OSError: the key names a directory of the tz database or is
+            # too long for a file name
             pass
 
     def knows_timezone_id(self, id: str) -> bool:
